@@ -701,7 +701,7 @@ func (c *SpecCtx) call(e *ast.CallExpr) *Val {
 			a, b := c.eval(e.Args[0]).T, c.eval(e.Args[1]).T
 			return intV(Ite(Ge(a, b), a, b))
 		case "ncalls":
-			name := c.strArg(e.Args[0])
+			name := canonCall(c.strArg(e.Args[0]))
 			if c.calleeGhost != nil {
 				return intV(c.calleeGhostTerm("ncalls:"+name, SInt, true))
 			}
@@ -710,14 +710,14 @@ func (c *SpecCtx) call(e *ast.CallExpr) *Val {
 			}
 			return intV(IntLit(0))
 		case "called":
-			name := c.strArg(e.Args[0])
+			name := canonCall(c.strArg(e.Args[0]))
 			if c.calleeGhost != nil {
 				return boolV(c.calleeGhostTerm("called:"+name, SBool, false))
 			}
 			_, ok := c.st.ghost["ncalls:"+name]
 			return boolV(BoolLit(ok))
 		case "lastarg":
-			name := c.strArg(e.Args[0])
+			name := canonCall(c.strArg(e.Args[0]))
 			i := c.eval(e.Args[1]).T.lit.Int64()
 			if c.calleeGhost != nil {
 				return scalar(c.calleeGhostTerm(fmt.Sprintf("lastarg:%s:%d", name, i), SInt, false), nil)
@@ -735,7 +735,7 @@ func (c *SpecCtx) call(e *ast.CallExpr) *Val {
 			return scalar(x.freshConst(c.st, "noarg", SInt), nil)
 		case "lastret":
 			// lastret("callee", i): scalar result i of the last call to callee on this path
-			name := c.strArg(e.Args[0])
+			name := canonCall(c.strArg(e.Args[0]))
 			i := c.eval(e.Args[1]).T.lit.Int64()
 			if c.calleeGhost != nil {
 				return scalar(c.calleeGhostTerm(fmt.Sprintf("lastret:%s:%d", name, i), SInt, false), nil)
